@@ -42,7 +42,7 @@ func Rffti(n int, work []float64, ifac []int) {
 	if n == 1 {
 		return
 	}
-	rffti1(n, work[n:2*n], ifac[:15])
+	rffti1(n, work[n:2*n], ifac)
 }
 
 func rffti1(n int, wa []float64, ifac []int) {
@@ -174,7 +174,7 @@ func Rfftf(n int, r, work []float64, ifac []int) {
 	if n == 1 {
 		return
 	}
-	rfftf1(n, r[:n], work[:n], work[n:2*n], ifac[:15])
+	rfftf1(n, r[:n], work[:n], work[n:2*n], ifac)
 }
 
 func rfftf1(n int, c, ch, wa []float64, ifac []int) {
@@ -647,7 +647,7 @@ func Rfftb(n int, r, work []float64, ifac []int) {
 	if n == 1 {
 		return
 	}
-	rfftb1(n, r[:n], work[:n], work[n:2*n], ifac[:15])
+	rfftb1(n, r[:n], work[:n], work[n:2*n], ifac)
 }
 
 func rfftb1(n int, c, ch, wa []float64, ifac []int) {
